@@ -1,0 +1,13 @@
+//go:build verif
+
+package encode
+
+// VerifEncodeNatural returns the encoding of u as a natural number. The
+// 4 byte form is not reachable through the exported API (the largest natural
+// an Encoder writes is a metadata chunk length), so external monitors of the
+// number codec use this hook. It exists only under the verif build tag.
+func VerifEncodeNatural(u uint32) []byte {
+	var b buffer
+	b.encodeNatural(u)
+	return []byte(b)
+}
